@@ -90,7 +90,7 @@ def run(rep, drv):
 	# normal demand: integral definition, r(Q), approximations (SciPy side, labelled tests)
 	for k in range(150 if th else 25):
 		h = rng.choice([0.5, 1, 2]); p = rng.choice([5, 14, 40]); K = rng.choice([4, 20, 100]); lam = rng.choice([20, 100, 1300]); sd = lam * rng.choice([0.1, 0.2]) ; L = rng.choice([1 / 12, 0.5, 1, 2])
-		cheap_stockouts = rng.random() < .35
+		cheap_stockouts = (k % 3 == 1) if k < 6 else rng.random() < .35          # the first cases run through every regime deterministically
 		if cheap_stockouts:
 			h = rng.choice([3, 10, 24]); p = rng.choice([0.5, 1, 2])          # holding dearer than stockouts: r(Q) well below the mean, r+Q near it
 		mu = lam * L; sigma = sd * math.sqrt(L)
@@ -103,6 +103,7 @@ def run(rep, drv):
 				g = lambda y: h * ((y - mu) * norm.cdf((y - mu) / sigma) + sigma * norm.pdf((y - mu) / sigma)) + p * ((mu - y) * (1 - norm.cdf((y - mu) / sigma)) + sigma * norm.pdf((y - mu) / sigma))
 				Q = max(1.0, math.sqrt(2 * K * lam / h)) * rng.choice([0.5, 1, 1.7]); r = mu + sigma * rng.choice([-1, 0, 1, 2])
 				where = rng.choice(['near', 'near', 'far-below', 'far-above', 'straddling-wide'])
+				if k < 5: where = ['far-below', 'near', 'far-above', 'straddling-wide', 'far-below'][k]
 				if where == 'far-below':
 					# the whole range (r, r+Q] many standard deviations below the mean lead-time demand (legal: cost of a badly understocked pair)
 					Q = max(1.0, sigma * rng.choice([0.5, 2])); r = mu - sigma * rng.choice([10, 14, 30]) - Q
